@@ -16,6 +16,7 @@ import myokit
 from scipy.integrate import solve_ivp
 
 RECORD = []          # [(sim_id, call_name, payload)]
+MODELS = {}          # sim_id -> the myokit.Model handed to the constructor (a clone), for structural checks
 _NEXT_ID = [0]
 
 
@@ -25,6 +26,7 @@ def install():
 
 def clear_record():
     del RECORD[:]
+    MODELS.clear()
 
 
 class Dual(object):
@@ -117,8 +119,13 @@ class RefSimulation(object):
             self._sens = (list(outs), [str(p) for p in pars])
         self.sim_id = _NEXT_ID[0]
         _NEXT_ID[0] += 1
+        MODELS[self.sim_id] = self._model
         RECORD.append((self.sim_id, 'new', {
             'states': [s.qname() for s in self._states],
+            # what chi's name tables are derived from, in myokit's own iteration order
+            'consts': [(v.qname(), bool(v.is_literal())) for v in self._model.variables(const=True)],
+            'inter': [v.qname() for v in self._model.variables(inter=True)],
+            'pace': None if self._pace_var is None else self._pace_var.qname(),
             'sensitivities': None if self._sens is None else [list(self._sens[0]), list(self._sens[1])],
             'protocol': None if self._protocol is None else self._protocol.code()}))
 
@@ -199,15 +206,22 @@ class RefSimulation(object):
             return np.concatenate([dx, dS.ravel()]), env
 
         outs = {name: np.empty(len(log_times)) for name in log}
-        sens = np.empty((len(log_times), len(log), npar))
+        # myokit returns the sensitivities of the dependents named at construction
+        deps = list(log) if self._sens is None else [str(x) for x in self._sens[0]]
+        sens = np.empty((len(log_times), len(deps), npar))
 
         def record(tt, zz, pace, k):
             _, env = f(tt, zz, pace)
             S = zz[ns:].reshape(ns, npar)
-            for oi, name in enumerate(log):
+            for name in log:
                 var = self._model.get(name)
                 d = env[var] if var in env else ev(myokit.Name(var), env, nd)
                 outs[name][k] = d.v
+            if self._sens is None:
+                return
+            for oi, name in enumerate(deps):
+                var = self._model.get(name)
+                d = env[var] if var in env else ev(myokit.Name(var), env, nd)
                 sens[k, oi] = d.g[:ns] @ S
                 sens[k, oi, ns:] += d.g[ns:]
 
@@ -261,5 +275,4 @@ class RefSimulation(object):
                 cols.append(snames.index(p[5:-1]))
             else:
                 cols.append(ns + cnames.index(p))
-        # the outputs requested with the sensitivities (chi passes the same list as `log`)
         return outs, sens[:, :, cols]
